@@ -67,7 +67,7 @@ fn compare_lists(p: &Pos, got: &mut Vec<String>, via: &str) -> Verdict {
         } else {
             "duplicate-move"
         };
-        return Err(Failure::new(sig, json!({"fen": p.fen(0,1), "observed_via": via, "mover_in_check": p.in_check(), "missing": missing, "extra": extra, "engine": got, "reference": want})));
+        return Err(Failure::new(sig, json!({"fen": eng::fen(&p), "observed_via": via, "mover_in_check": p.in_check(), "missing": missing, "extra": extra, "engine": got, "reference": want})));
     }
     Ok(())
 }
@@ -92,7 +92,7 @@ fn part_api(bytes: &[u8], stats: &mut Stats) -> Verdict {
     if classify(&p, stats) {
         stats.nontrivial(&p.fen4());
     }
-    stats.sample(|| json!({"fen": p.fen(0,1), "tactical_moves": got}));
+    stats.sample(|| json!({"fen": eng::fen(&p), "tactical_moves": got}));
     Ok(())
 }
 
@@ -108,7 +108,7 @@ fn part_recorded(bytes: &[u8], stats: &mut Stats) -> Verdict {
     if let Err(pn) = &r {
         let msg = crate::panic_text(pn);
         if !msg.contains("node hard cap") {
-            return Err(Failure::new("search-panic", json!({"fen": p.fen(0,1), "depth": d, "panic": msg})));
+            return Err(Failure::new("search-panic", json!({"fen": eng::fen(&p), "depth": d, "panic": msg})));
         }
         stats.class("search_cut_by_watchdog_(recorded_nodes_still_judged)");
     }
@@ -122,11 +122,11 @@ fn part_recorded(bytes: &[u8], stats: &mut Stats) -> Verdict {
         }
         stats.eval();
         if *in_check_flag != q.in_check() {
-            return Err(Failure::new("in-check-flag-wrong", json!({"root": p.fen(0,1), "node": q.fen(0,1), "engine_flag": in_check_flag, "reference": q.in_check()})));
+            return Err(Failure::new("in-check-flag-wrong", json!({"root": eng::fen(&p), "node": eng::fen(&q), "engine_flag": in_check_flag, "reference": q.in_check()})));
         }
         let mut got: Vec<String> = moves.iter().map(|m| m.to_algebraic()).collect();
         if let Err(mut f) = compare_lists(&q, &mut got, "recorded in search_until_quiet") {
-            f.detail["root"] = json!(p.fen(0, 1));
+            f.detail["root"] = json!(eng::fen(&p));
             f.detail["depth"] = json!(d);
             return Err(f);
         }
@@ -137,7 +137,7 @@ fn part_recorded(bytes: &[u8], stats: &mut Stats) -> Verdict {
             stats.nontrivial(&q.fen4());
         }
     }
-    stats.sample(|| json!({"root": p.fen(0,1), "depth": d, "quiescence_nodes_recorded": recs.len(), "distinct_positions": seen.len()}));
+    stats.sample(|| json!({"root": eng::fen(&p), "depth": d, "quiescence_nodes_recorded": recs.len(), "distinct_positions": seen.len()}));
     Ok(())
 }
 
